@@ -857,6 +857,18 @@ func genSeq(r *Rng, mode string, steps int) *Enc {
 		if r.Chance(10) {
 			sprinkleNaN(r, df)
 		}
+		if r.Chance(6) && n >= 2 {
+			// two text columns whose values are made of the separators, escapes and type names a row key is built from
+			av := []any{"C:\\tmp\\", "C:\\tmp|b:string:p\\", "x\\", "x", "a|b", "\\|"}
+			bv := []any{"p|b:string:q", "q", "|b:string:q", "x", "string:1:q", "\\"}
+			a, b := make([]any, n), make([]any, n)
+			for i := range a {
+				a[i], b[i] = Pick(r, av[:r.Range(2, len(av))]), Pick(r, bv[:r.Range(2, len(bv))])
+			}
+			df = dataframe.NewDataFrame()
+			df.Columns["a"] = &dataframe.Column[any]{Name: "a", Data: a}
+			df.Columns["b"] = &dataframe.Column[any]{Name: "b", Data: b}
+		}
 		s.pool = []*DF{df}
 		s.names = []string{"a", "b", "c", "zz", "index"}
 	case "c08":
@@ -905,6 +917,8 @@ func genSeq(r *Rng, mode string, steps int) *Enc {
 					{"May 5, 2024", "September 15, 2023", "January 2, 2006"},
 					{"2024-01-05", "2024-01-06 ", " 2024-01-07", "2024-01-08"},
 					{"2024-01-05", "2024-01-06 ", "2024-01-08"},
+					{"2020-01-02 03:04:05.5", "2020-01-02 03:04:05", "2020-01-02 03:04:05.250", "x"},
+					{"2020-01-02 03:04:05.5", "1999-12-31 23:59:59.999", "2020-01-02 03:04:05"},
 				})
 				for i := range d {
 					d[i] = Pick(r, fam)
